@@ -78,7 +78,31 @@ struct Spec {
     /// Rust items (enums, impls) that stand in for types of external crates; parsed like a source file
     #[serde(default)]
     extern_items: Vec<String>,
+    /// method calls whose value is an input of the function that contains them, identified by the text of the
+    /// receiver (`recv`) or by the receiver's type (`recv_type`: the input is then a function of the receiver), the
+    /// method name and the text of the arguments; see `Probe`
+    #[serde(default)]
+    probes: Vec<Probe>,
     requests: Vec<Request>,
+}
+
+/// `recv.method(args)` read as an input `p_<name>` (fourth round). Sites with the same receiver text, method and
+/// argument text share the input (the same pure question asked again, or asked on exclusive paths); a site with the
+/// same receiver and method but other arguments is an error. With `recv_type` the receiver is translated and the input
+/// is a function of it (`p_<name> : RecvTy -> ty`), so that the call may stand inside a closure over a list.
+#[derive(Deserialize, Clone)]
+struct Probe {
+    #[serde(default)]
+    recv: Option<String>,
+    #[serde(default)]
+    recv_type: Option<String>,
+    method: String,
+    name: String,
+    /// Rust type of the value
+    ty: String,
+    /// the functions (`Type::method` / `function`) inside which the probe applies
+    #[serde(rename = "in")]
+    in_fn: Vec<String>,
 }
 
 #[derive(Deserialize, Clone)]
@@ -146,6 +170,14 @@ struct Request {
     /// loop_body: the mutable locals declared before the loop that the body updates: name -> Rust type
     #[serde(default)]
     state: Vec<(String, String)>,
+    /// loop_step: the fragment starts after the last `let` of the loop body that binds this name
+    #[serde(default)]
+    after_let: Option<String>,
+    /// call_trace: an `if` whose condition does not translate and whose branches make different calls becomes
+    /// `if c<k> then .. else ..` for a boolean input `c<k>` of the generated definition (the lemma is then for both
+    /// values); calls made inside a `for` loop are recorded once with the method name prefixed by `*`
+    #[serde(default)]
+    opaque_conditions: bool,
 }
 
 // ---------------------------------------------------------------------------------------- errors
@@ -474,6 +506,8 @@ enum Ty {
     Omitted,
     /// string literals
     Str,
+    /// an input that is a function (probes by receiver type)
+    Fun(Box<Ty>, Box<Ty>),
 }
 
 impl Ty {
@@ -491,6 +525,7 @@ impl Ty {
             Ty::Token(_) => "N".into(),
             Ty::Omitted => "unit".into(),
             Ty::Str => "string".into(),
+            Ty::Fun(a, b) => format!("({} -> {})", a.coq(), b.coq()),
         }
     }
 }
@@ -614,6 +649,10 @@ enum K<'a> {
     Then(&'a [Stmt], Env, &'a K<'a>),
     /// the result is the current value of these threaded locals (a tuple; one local: itself)
     Vars(Vec<String>),
+    /// `let <pat> = <branching expression with a `return` inside>; <rest>`: every leaf of the expression that is a value
+    /// is bound to the pattern (in the environment of the `let`) and the rest of the block follows; a leaf that
+    /// returns leaves the function
+    Bind(&'a Pat, Env, Option<Ty>, &'a [Stmt], &'a K<'a>),
 }
 
 include!("../decisions/types.rs");
